@@ -82,6 +82,9 @@ func (e *Engine) feasible(st *State, c *Term) (bool, Model) {
 	}
 	q := append(append([]*Term(nil), st.pc...), c)
 	r, m := e.solver.Check(q, true)
+	if e.res.QueryPos != nil {
+		e.res.QueryPos[e.pos(e.curInstr)+" "+r.String()]++
+	}
 	switch r {
 	case Sat:
 		return true, m
@@ -175,21 +178,62 @@ func (e *Engine) choose(st *State, n int) int {
 	panic(forkSignal{})
 }
 
-// concretize returns a concrete value for t, forking over its feasible values in [0,max].
+// concretize returns a concrete value for t, forking over its feasible values
+// (found by model enumeration with blocking clauses; values above max are an
+// unwinding failure). The decision recorded for re-execution is the value itself.
 func (e *Engine) concretize(st *State, t *Term, max int, what string) int {
 	if t.IsConst() {
 		return int(signed(t.BV, t.S.W))
 	}
-	conds := make([]*Term, 0, max+2)
-	for i := 0; i <= max; i++ {
-		conds = append(conds, e.ts.Eq(t, e.ts.BV(uint64(i), t.S.W)))
+	if st.decPos < len(st.decisions) {
+		k := st.decisions[st.decPos]
+		st.decPos++
+		return k
 	}
-	conds = append(conds, e.ts.Not(e.ts.Or(conds...)))
-	k := e.fork(st, conds)
-	if k > max {
-		panic(pathEnd{kind: "unwind", msg: fmt.Sprintf("%s exceeds bound %d at %s", what, max, e.pos(e.curInstr))})
+	ts := e.ts
+	var vals []int
+	var models []Model
+	var conds []*Term
+	var block []*Term
+	for {
+		ok, m := e.feasible(st, ts.And(block...))
+		if !ok {
+			break
+		}
+		cv := ts.Eval(t, m)
+		v := int(signed(cv.BV, t.S.W))
+		if v < 0 || v > max {
+			panic(pathEnd{kind: "unwind", msg: fmt.Sprintf("%s can be %d, outside bound %d, at %s", what, v, max, e.pos(e.curInstr))})
+		}
+		eq := ts.Eq(t, ts.BV(cv.BV, t.S.W))
+		vals = append(vals, v)
+		models = append(models, m)
+		conds = append(conds, eq)
+		block = append(block, ts.Not(eq))
+		if len(vals) > max+1 {
+			break
+		}
 	}
-	return k
+	if len(vals) == 0 {
+		panic(pathEnd{kind: "infeasible"})
+	}
+	st.branches++
+	if len(vals) == 1 {
+		st.decisions = append(st.decisions[:st.decPos], vals[0])
+		st.decPos++
+		return vals[0]
+	}
+	prefix := append([]int(nil), st.decisions[:st.decPos]...)
+	for j := len(vals) - 1; j >= 0; j-- {
+		c := st.clone()
+		e.addPC(c, conds[j])
+		c.model = models[j]
+		c.decisions = append(append([]int(nil), prefix...), vals[j])
+		c.decPos = 0
+		e.work = append(e.work, c)
+	}
+	e.res.Forks++
+	panic(forkSignal{})
 }
 
 // goPanic raises a Go panic in the interpreted thread.
